@@ -3,7 +3,7 @@
 P=$1; shift
 git -C /repo apply "$P" || exit 2
 for id in "$@"; do
-  /verif/check $id --no-evidence 2>&1 | grep -v "^RULE.*ok$" | head -12
+  /verif/check $id --no-evidence 2>&1 | grep -v "^RULE.* ok$" | head -12
 done
 git -C /repo checkout -- .
 git -C /repo status --short | head -3
